@@ -266,6 +266,7 @@ class _Walker:
             e = W().visit(e)
         new = _Subst(env).visit(e)
         new = _Fuse().visit(new)  # a comprehension over a substituted comprehension
+        new = _DistributeCall().visit(new)  # (f if c else g)(x)  ->  f(x) if c else g(x)
         self._tag(new)
         return new
 
@@ -287,7 +288,9 @@ class _Walker:
                     n._ver = 0  # type: ignore[attr-defined]
 
     def _record_calls(self, e: ast.AST, cond: Cond, st: ast.AST, env: Optional[dict] = None) -> None:
-        for c in _calls_outer_first(e):
+        base_cond = cond
+        for c, extra in _calls_with_conditions(e):
+            cond = base_cond + extra
             if isinstance(c.func, ast.Name) and c.func.id in PURE_CALLS:
                 continue
             if getattr(c, "_recorded", False):
@@ -362,7 +365,9 @@ class _Walker:
                 t = self.ev(_as_load(st.target), {k: x for k, x in env.items() if not k.startswith("@")})
                 t._ver = 0  # type: ignore[attr-defined]  # the location, not a read of it
                 self._invalidate(env, st.target)
-                self.flow.effects.append(Eff(cond, "aug", ast.AugAssign(target=t, op=st.op, value=v), st))
+                # `T op= V` is the store `T = T op V` (the read of T happens now: it carries the current version)
+                cur = self.ev(_as_load(st.target), env)
+                self.flow.effects.append(Eff(cond, "store", ast.Assign(targets=[t], value=ast.BinOp(left=cur, op=st.op, right=v)), st))
                 self._stored(t)
             return env, cond
         if isinstance(st, ast.Return):
@@ -573,6 +578,12 @@ class _Walker:
             self.flow.effects.append(Eff(cond, "store", ast.Assign(targets=[tt], value=v), st))
             self._stored(tt)
             self._invalidate(env, t)
+            if isinstance(t, ast.Attribute) and _plain_chain(t) and isinstance(st, (ast.Assign, ast.AnnAssign)) \
+                    and isinstance(getattr(st, "value", None), ast.Name) and isinstance(v, ast.Call) and st.value.id in env \
+                    and isinstance(v.func, ast.Name) and self.model is not None \
+                    and any(v.func.id in mod.classes for mod in self.model.modules.values()):
+                # `x = Cls(...); obj.attr = x`: x and obj.attr are the same object from here on -- name it by the attribute
+                env[st.value.id] = self.ev(_as_load(t), {k: x for k, x in env.items() if not k.startswith("@")})
             if isinstance(t, ast.Attribute) and _plain_chain(t) and not any(isinstance(x, ast.Subscript) for x in ast.walk(t)):
                 try:
                     env["@" + ast.unparse(t)] = v
@@ -580,6 +591,16 @@ class _Walker:
                     pass
         else:
             raise AnalysisError(f"symflow: unsupported assignment target {type(t).__name__} at {self.fn.loc(st)}")
+
+
+class _DistributeCall(ast.NodeTransformer):
+    def visit_Call(self, n: ast.Call):
+        self.generic_visit(n)
+        if isinstance(n.func, ast.IfExp):
+            a = ast.Call(func=n.func.body, args=copy.deepcopy(n.args), keywords=copy.deepcopy(n.keywords))
+            b = ast.Call(func=n.func.orelse, args=copy.deepcopy(n.args), keywords=copy.deepcopy(n.keywords))
+            return ast.IfExp(test=n.func.test, body=self.visit_Call(a), orelse=self.visit_Call(b))
+        return n
 
 
 def _chain_root(n: ast.AST) -> str:
@@ -601,6 +622,31 @@ def _as_load(t: ast.AST) -> ast.AST:
         if hasattr(n, "ctx"):
             n.ctx = ast.Load()  # type: ignore[attr-defined]
     return t
+
+
+def _calls_with_conditions(e: ast.AST) -> list[tuple[ast.Call, tuple]]:
+    """Calls in evaluation order, each with the conditions (conditional-expression arms) under which it is evaluated."""
+    out: list = []
+
+    def rec(n: ast.AST, cond: tuple) -> None:
+        if isinstance(n, (ast.Lambda, ast.ListComp, ast.SetComp, ast.GeneratorExp, ast.DictComp)):
+            return
+        if isinstance(n, ast.IfExp):
+            rec(n.test, cond)
+            rec(n.body, cond + ((n.test, True),))
+            rec(n.orelse, cond + ((n.test, False),))
+            return
+        if isinstance(n, ast.Call) and isinstance(n.func, ast.Name) and n.func.id.startswith(PSEUDO):
+            for c in n.args:
+                rec(c, cond)
+            return
+        for c in ast.iter_child_nodes(n):
+            rec(c, cond)
+        if isinstance(n, ast.Call):
+            out.append((n, cond))
+
+    rec(e, ())
+    return out
 
 
 def _calls_outer_first(e: ast.AST) -> list[ast.Call]:
